@@ -1,0 +1,14 @@
+//go:build verif
+
+package gogu
+
+// VerifDebounceGap is a verification hook (build tag verif): when set, the goroutine of a debounce timer
+// calls it after it has decided, under the debouncer's lock, to run the debounced function and has released
+// the lock, right before it runs the function.
+var VerifDebounceGap func()
+
+func verifDebounceGap() {
+	if g := VerifDebounceGap; g != nil {
+		g()
+	}
+}
